@@ -130,13 +130,12 @@ class FakeOS:
         raise EscapeError("os.%s not routed" % name)
 
     # -- helpers
-    @staticmethod
-    def _s(path):
+    def _s(self, path):
         if isinstance(path, bytes):
-            return path.decode("utf-8", "surrogateescape"), True
+            return self._w.xlate(path.decode("utf-8", "surrogateescape")), True
         if "\0" in path:
             raise ValueError("embedded null byte")
-        return path, False
+        return self._w.xlate(path), False
 
     def getpid(self):
         return self._w.mypid
@@ -305,6 +304,13 @@ class FakeGlob:
         self._w = world
 
     def glob(self, pattern):
+        w = self._w
+        if w.procfs != "/proc":
+            pattern = w.xlate(pattern)
+            return [w.unxlate(x) for x in self._glob(pattern)]
+        return self._glob(pattern)
+
+    def _glob(self, pattern):
         w = self._w
         w.point("glob", pattern, None)
         parts = [x for x in pattern.split("/") if x]
@@ -525,6 +531,7 @@ def make_open(world):
             raise ValueError("embedded null byte")
         if any(c in mode for c in "wax+"):
             raise EscapeError("open(%r, %r)" % (file, mode))
+        file = w.xlate(file)
         pid, tail = w.split_proc(file)
         w.point("open", file, pid)
         path = file
@@ -780,7 +787,7 @@ class Seams:
         ps._psposix.get_terminal_map.cache_clear()
         ps._pslinux.set_scputimes_ntuple.cache_clear()
         ps._pslinux.scputimes = self._import_state["scputimes"]
-        ps.PROCFS_PATH = "/proc"
+        ps.PROCFS_PATH = self.world.procfs if self.world is not None else "/proc"
 
 
 _MISSING = object()
